@@ -8,5 +8,6 @@ From Chess3 Require Export Model.TimeCtl.
 From Chess3 Require Export Model.BoardDef.
 From Chess3 Require Export Model.BoardStreams.
 From Chess3 Require Export Spec.ChessJudge.
+From Chess3 Require Export Model.Vector Model.EvalU Spec.TunerSpec.
 
 Extraction Language OCaml.
